@@ -1,6 +1,7 @@
 import PbVerif.Lemmas.WktJsonDigits
 /-! Helper lemmas for C23: the scanner `parseDuration` against the parts of the documented grammar,
 and the text produced by `fmtDuration`. -/
+set_option linter.unusedSimpArgs false
 namespace WktJson
 
 /-! ### the fraction block -/
@@ -410,7 +411,7 @@ theorem fmtParts_value {secs nanos : Int} (hv : DurationValid secs nanos) :
       simp only [optChars, padFrac9, List.nil_append]
       rw [natOfDigits_replicate_zero, h0]
     · split
-      · next h0 h6 =>
+      · next h0 _h6 =>
         simp only [optChars]
         rw [natOfDigits_padFrac9 (by simp [length_padDigits]), natOfDigits_padDigits, length_padDigits]
         simp only [show (9 : Nat) - 3 = 6 from rfl, show (10 : Nat) ^ 3 = 1000 from rfl, show (10 : Nat) ^ 6 = 1000000 from rfl]
